@@ -28,7 +28,7 @@ import (
 // server must be detected no earlier than one timeout after the last send.
 
 type c18Step struct {
-	Kind  string // single | batch | early | cancelled | idle | silent
+	Kind  string // single | batch | early | cancelled (batch) | cancelled-single (unbatched calls) | ooo | idle | silent
 	N     int
 	Delay time.Duration
 }
@@ -52,7 +52,7 @@ func (c c18Case) String() string {
 func genC18Case(r *rand.Rand, realtime bool) c18Case {
 	cs := c18Case{Seed: r.Int63(), Timeout: []time.Duration{100 * time.Millisecond, 300 * time.Millisecond}[r.Intn(2)],
 		Queue: []int{1, 2, 100}[r.Intn(3)], Full: r.Intn(3) == 0}
-	kinds := []string{"single", "single", "batch", "early", "early", "cancelled", "ooo"}
+	kinds := []string{"single", "single", "batch", "early", "early", "cancelled", "cancelled-single", "ooo"}
 	for i, n := 0, 3+r.Intn(8); i < n; i++ {
 		cs.Steps = append(cs.Steps, c18Step{Kind: kinds[r.Intn(len(kinds))], N: 1 + r.Intn(5)})
 	}
@@ -222,11 +222,11 @@ func runC18Case(c *fw.Ctx, id string, cs c18Case) {
 	for si, st := range cs.Steps {
 		where := fmt.Sprintf("after step %d (%s)", si, st.Kind)
 		switch st.Kind {
-		case "single", "batch", "early", "cancelled", "ooo":
+		case "single", "batch", "early", "cancelled", "cancelled-single", "ooo":
 			var calls []hrpc.Call
 			ctx := context.Background()
 			var cancel context.CancelFunc
-			if st.Kind == "cancelled" {
+			if st.Kind == "cancelled" || st.Kind == "cancelled-single" {
 				ctx, cancel = context.WithCancel(ctx)
 			}
 			n := st.N
@@ -235,11 +235,11 @@ func runC18Case(c *fw.Ctx, id string, cs c18Case) {
 				atomic.StoreInt32(&forceEarly, 1)
 			}
 			for i := 0; i < n; i++ {
-				calls = append(calls, mkCall(ctx, st.Kind == "early" || (st.Kind == "single" && i%2 == 0)))
+				calls = append(calls, mkCall(ctx, st.Kind == "early" || st.Kind == "cancelled-single" || (st.Kind == "single" && i%2 == 0)))
 			}
 			var h chan struct{}
 			holdStart := time.Now()
-			if st.Kind == "cancelled" || st.Kind == "ooo" {
+			if st.Kind == "cancelled" || st.Kind == "cancelled-single" || st.Kind == "ooo" {
 				h = make(chan struct{})
 				hold.Store(h)
 			}
@@ -299,13 +299,16 @@ func runC18Case(c *fw.Ctx, id string, cs c18Case) {
 				return
 			}
 			for _, e := range errs {
-				if e != nil && st.Kind != "cancelled" {
+				if e != nil && st.Kind != "cancelled" && st.Kind != "cancelled-single" {
 					c.Violate(id, "idle:call-failed", fmt.Sprintf("%s: call failed on a healthy connection: %v: %s", where, e, cs), cs)
 					return
 				}
 			}
-			if st.Kind == "cancelled" {
-				time.Sleep(5 * time.Millisecond) // responses to the cancelled calls are read and skipped
+			if st.Kind == "cancelled" || st.Kind == "cancelled-single" {
+				// responses to the cancelled calls are read and skipped: wait until
+				// the server has written them and the reader had time to take them
+				time.Sleep(10 * time.Millisecond)
+				c.Count("responses_for_cancelled_calls", int64(len(calls)))
 			}
 			c.Count("zero_crossings", 1)
 			if !quiescent(where) {
